@@ -236,12 +236,27 @@ func (g *G) conv(dst, src types.Type, x Value) Value {
 				return Int{C: floatToIntAMD64(a.C, dw, ds) & mask(dw)}
 			}
 			// symbolic: CVTTSD2SI semantics for int64: out of range/NaN -> MinInt64
-			if dw == 64 && ds {
-				in := And(FPCmp("fp.geq", a.T, FPConst(-9223372036854775808.0)), FPCmp("fp.lt", a.T, FPConst(9223372036854775808.0)))
-				cv := &Term{Op: "fp.to_sbv", S: SBV, W: 64, Args: []*Term{a.T}}
-				return mkInt(Ite(in, cv, BVConst(1<<63, 64)))
+			// (narrower widths: low bits of the 64-bit conversion, as in floatToIntAMD64)
+			sbv := func(t *Term) *Term { return &Term{Op: "fp.to_sbv", S: SBV, W: 64, Args: []*Term{t}} }
+			two63, min63 := FPConst(9223372036854775808.0), FPConst(-9223372036854775808.0)
+			bad := BVConst(1<<63, 64)
+			var r64 *Term
+			if ds {
+				in := And(FPCmp("fp.geq", a.T, min63), FPCmp("fp.lt", a.T, two63))
+				r64 = Ite(in, sbv(a.T), bad)
+			} else {
+				// mirrors floatToIntAMD64: NaN/negative, >= 2^64, >= 2^63, else
+				negOrNaN := Or(FPPred("fp.isNaN", a.T), FPCmp("fp.lt", a.T, FPConst(0)))
+				r64 = Ite(negOrNaN, Ite(FPCmp("fp.gt", a.T, min63), sbv(a.T), bad),
+					Ite(FPCmp("fp.geq", a.T, FPConst(18446744073709551616.0)), bad,
+						Ite(FPCmp("fp.geq", a.T, two63),
+							BVBin("bvadd", sbv(FPBin("fp.sub", a.T, two63)), bad),
+							sbv(a.T))))
 			}
-			g.inconclusive("symbolic float to " + dst.String())
+			if dw == 64 {
+				return mkInt(r64)
+			}
+			return mkInt(Extract(r64, dw-1, 0))
 		}
 	}
 	if isString(src) {
